@@ -34,7 +34,7 @@ PROPERTIES AlwaysReturns
 CHECK_DEADLOCK FALSE
 """
 QUICK = [("selector", 3), ("value", 2), ("gradient", 4), ("svgpath", 4), ("svgattr", 3), ("svgref", 4), ("descriptor", 2), ("color", 3), ("nth", 3), ("media", 3), ("url", 3), ("htmlattr", 2), ("page", 3)]
-THOROUGH = [("selector", 4), ("value", 3), ("gradient", 5), ("svgpath", 5), ("svgattr", 4), ("svgref", 5), ("descriptor", 3), ("color", 4), ("nth", 4), ("media", 4), ("url", 4), ("htmlattr", 3), ("page", 4)]
+THOROUGH = [("selector", 4), ("value", 3), ("gradient", 5), ("svgpath", 4), ("svgattr", 4), ("svgref", 5), ("descriptor", 3), ("color", 4), ("nth", 4), ("media", 4), ("url", 4), ("htmlattr", 3), ("page", 4)]
 
 
 def run(ctx):
